@@ -501,11 +501,16 @@ void tickit_pen_copy_attr(TickitPen *dst, const TickitPen *src, TickitPenAttr at
     tickit_pen_set_int_attr(dst, attr, tickit_pen_get_int_attr(src, attr));
     return;
   case TICKIT_PENTYPE_COLOUR:
-    freeze(dst);
-    tickit_pen_set_colour_attr(dst, attr, tickit_pen_get_colour_attr(src, attr));
-    if(tickit_pen_has_colour_attr_rgb8(src, attr))
-      tickit_pen_set_colour_attr_rgb8(dst, attr, tickit_pen_get_colour_attr_rgb8(src, attr));
-    thaw(dst);
+    {
+      /* read everything from src first: dst may be the same pen */
+      bool has_rgb8 = tickit_pen_has_colour_attr_rgb8(src, attr);
+      TickitPenRGB8 rgb8 = tickit_pen_get_colour_attr_rgb8(src, attr);
+      freeze(dst);
+      tickit_pen_set_colour_attr(dst, attr, tickit_pen_get_colour_attr(src, attr));
+      if(has_rgb8)
+        tickit_pen_set_colour_attr_rgb8(dst, attr, rgb8);
+      thaw(dst);
+    }
     return;
   }
 
